@@ -40,6 +40,9 @@ _TAILS = [b"q:k=v|", b"f:top|", b"q:a=1|"]
 LONG_LENGTHS = [73, 74, 75, 76, 147, 148, 149, 150, 221, 222, 223, 224, 296, 300, 600]
 
 
+_ADV_SUBS = [b"h:WWW|", b"h:Www|", b"h:www|", b"h:Blog|"]
+
+
 def _site(rng, adversarial=False):
     sch = rng.choice(_SCHEMES)
     if adversarial and rng.random() < 0.15:
@@ -58,7 +61,7 @@ def _site(rng, adversarial=False):
         out.append(rng.choice(_TLDS))
         out.append(rng.choice(_DOMS))
         if rng.random() < 0.35:
-            out.append(rng.choice(_SUBS))
+            out.append(rng.choice(_ADV_SUBS if (adversarial and rng.random() < 0.5) else _SUBS))
     return out
 
 
